@@ -135,6 +135,16 @@ func c07Mods(e *entry.Entry, other *entry.Entry, full bool) []mod {
 	add("clock-time", []int{-1}, "time-1", func(x *entry.Entry) { x.Clock.Time-- })
 	// key / signature substitution
 	add("key-of-other-writer", nil, "key -> another writer's key", func(x *entry.Entry) { x.Key = world.IDs[(2)].PublicKey })
+	// malformed substitutes: a key that does not even parse must not make verification fall back on anything else
+	for i := range e.Key {
+		i := i
+		add("key-byte", []int{i}, fmt.Sprintf("flip bit 0 of key byte %d", i), func(x *entry.Entry) { x.Key[i] ^= 1 })
+	}
+	add("key-truncate", []int{1}, "drop the last key byte", func(x *entry.Entry) { x.Key = x.Key[:len(x.Key)-1] })
+	add("key-truncate", []int{32}, "keep only the first 33 key bytes", func(x *entry.Entry) { x.Key = x.Key[:33] })
+	add("key-prefix", []int{0x02}, "key prefix byte -> 0x02", func(x *entry.Entry) { x.Key[0] = 0x02 })
+	add("key-garbage", nil, "key -> 65 bytes of 0xAB", func(x *entry.Entry) { x.Key = bytes.Repeat([]byte{0xab}, 65) })
+
 	add("sig-of-other-entry", nil, "signature -> valid signature of a different entry by the same key", func(x *entry.Entry) { x.Sig = other.Sig })
 	nbits := len(e.Sig) * 8
 	for b := 0; b < nbits; b++ {
